@@ -24,7 +24,10 @@ Record tinst := {
   t_notimp : list (nat * Z);           (* (var, base) pairs NOT impacted *)
   t_rub : list Z;                      (* per base state *)
   t_key : list Z;                      (* per base state, negative = no key *)
-  t_coords : list (list Z) }.
+  t_coords : list (list Z);
+  t_mergekind : Z;                     (* 0 = union (powerset relaxation), 1 = chain successor of the highest member *)
+  t_pos : list Z;
+  t_up : list Z }.
 
 Fixpoint insert_set (x : Z) (l : list Z) : list Z :=
   match l with
@@ -86,7 +89,19 @@ Section Table.
   Definition sat_mul (a b : Z) : Z := clampZ (a * b).
 
   Definition t_relaxation : relaxation tstate := {|
-    merge := fun l => fold_right set_union [] l;
+    merge := fun l =>
+      let u := fold_right set_union [] l in
+      if t_mergekind ti =? 1 then
+        match u with
+        | [] => []
+        | b0 :: rest =>
+            let better (a b : Z) :=       (* max_by_key (pos, id): the LAST maximum wins; ids are distinct so the key is injective *)
+              let pa := nth (Z.to_nat a) (t_pos ti) 0 in let pb := nth (Z.to_nat b) (t_pos ti) 0 in
+              if (pa <? pb) || ((pa =? pb) && (a <? b)) then b else a in
+            let top := fold_left better rest b0 in
+            [nth (Z.to_nat top) (t_up ti) top]
+        end
+      else u;
     relax := fun src dst merged d cost => sat_add cost (sat_mul (t_slack ti) (zlen merged - zlen dst));
     fast_upper_bound := fun s =>
       if t_rubkind ti =? 1
